@@ -39,9 +39,9 @@ def _cat(pre: str, t: str, suf: str) -> str:
 
 
 def _degenerate(sid) -> bool:
-    """pathlib collapses empty / '.' segments and '..' is not a name: outside the claim (DESIGN section 3)."""
+    """pathlib collapses empty and '.' segments: outside the claim (DESIGN section 3).  '..' is kept by pathlib and is inside."""
     for v in sid.fields.values():
-        if v == "" or v == "." or v == ".." or "/" in v:
+        if v == "" or v == "." or "/" in v:
             return True
     return False
 
